@@ -13,6 +13,7 @@ are ordinary breakers built with `BuildResourceCircuitBreaker`).
 * `Res.completed`                           = `MetricStatSlot.OnCompleted`
 * `stSchedule`/`stRecover`/`stRecycle`      = `Recycler.scheduleNodes` / `recover` / `recycle`
 * `Res.retryOk`                             = `Retryer.onConnected`
+* `Res.rebuild`                             = rule reload with a changed breaker part (`updateAllBreakers`)
 * `capF64 n m E`                            = `int(float64(n) * p)` for the binary64 `p = m / 2^E`,
                                               in exact natural-number arithmetic (round to nearest even)
 
@@ -206,5 +207,16 @@ def Res.recycle (r : Res) (a : String) : Res :=
 def Res.retryOk (r : Res) (now : Nat) (a : String) (rt : Nat) : Res :=
   { r with status := stRecover r.status a,
            nodes := updNode r.nodes a fun b => b.onComplete r.rule.cb now rt false }
+
+/-- Rule reload whose breaker part differs from the bound one (`isEqualsTo` false):
+    `updateAllBreakers` / `BuildResourceCircuitBreaker` builds a **new, Closed** breaker for every known node
+    (`nextRetry = 0`, no probes counted); the statistic is carried over when strategy, interval and bucket count
+    are unchanged (`isStatReusable`), otherwise it is a fresh leap array created at `now`.
+    The recycler's status map is not touched. -/
+def Res.rebuild (r : Res) (rule : Rule) (now : Nat) (reuseStat : Bool) : Res :=
+  { r with rule := rule,
+           nodes := r.nodes.map fun p =>
+             (p.1, { state := .closed, nextRetry := 0, curProbe := 0,
+                     stat := if reuseStat then p.2.stat else LA.mk rule.cb.n rule.cb.L now }) }
 
 end Sentinel.Outlier
